@@ -308,7 +308,9 @@ type c01Input struct {
 
 func c01BasePointerText(i int) string {
 	oids := []string{"4d7a214614ab2935c943f9e0ff69d22eadbb8f32b1258daaa5e2ca24d17e2393", strings.Repeat("0", 64), strings.Repeat("f", 64)}
-	eo := func(k int) string { return strings.Repeat(string("0123456789abcdef"[k%16]), 60) + fmt.Sprintf("%04x", 0xbeef+k) }
+	eo := func(k int) string {
+		return strings.Repeat(string("0123456789abcdef"[k%16]), 60) + fmt.Sprintf("%04x", 0xbeef+k)
+	}
 	switch i {
 	case 0:
 		return fmt.Sprintf("version %s\noid sha256:%s\nsize 12345\n", c01Version, oids[0])
@@ -443,7 +445,7 @@ type c01Req struct {
 	RawSmudge bool          `json:"rawsmudge,omitempty"` // smudge the INPUT bytes (C08: non-pointers pass through) with Ch
 	NoClean   bool          `json:"noclean,omitempty"`
 	SmudgeSrc []byte        `json:"smudgesrc,omitempty"` // with NoClean: pointer bytes to smudge with the Smudge chunkings
-	PreStore  []string      `json:"prestore,omitempty"` // files whose contents are put into local storage first
+	PreStore  []string      `json:"prestore,omitempty"`  // files whose contents are put into local storage first
 }
 
 type c01StoreFile struct {
@@ -499,7 +501,7 @@ func c01ExtScripts(scratch string) (cleanPfx, smudgePfx string) {
 		os.WriteFile(tmp, []byte("#!/bin/sh\nprintf 'EXT1'\nexec cat\n"), 0755)
 		os.Rename(tmp, cleanPfx)
 		for name, body := range map[string]string{
-			"c01fail-nowrite": "#!/bin/sh\ncat >/dev/null\nexit 3\n",           // consumes its input, writes nothing, fails
+			"c01fail-nowrite": "#!/bin/sh\ncat >/dev/null\nexit 3\n",            // consumes its input, writes nothing, fails
 			"c01fail-partial": "#!/bin/sh\nhead -c 3\ncat >/dev/null\nexit 3\n", // writes the first 3 bytes, consumes the rest, fails
 			"c01fail-early":   "#!/bin/sh\nexit 3\n",                            // fails before reading
 		} {
